@@ -1,6 +1,7 @@
 import QipVerif.Util.Proto
 import QipVerif.Model.Sched
 import QipVerif.Gen.SchedRule
+import QipVerif.Model.SchedCons
 /-! Driver for the scheduler model (C05, C11).
 
 Instruction syntax: `NAME:t,t:c,c:dur[:sc]`, several joined by `|` (targets / controls already
@@ -17,6 +18,10 @@ from the tree under test (`Gen.SchedRule.inSet`); an explicit fifth field `0|1` 
   `ok used=<#shuffles> cycles=a,b;c;… idx=… starts=… edges=i>j,…`
   (`cycles` as returned with `return_cycles_list=True`, `idx` = `gate_cycles_indices`,
   `starts` = `instruction_start_time` numerators, `edges` = sorted dependency edges)
+* constructor arguments: `mcp=<code points of the method string, comma-separated>` | `mcp=e` (empty string) | `mcp=-`
+  (`None` / not a string) instead of `method=`; `cons=<k>,<k>,…` | `cons=-` (empty list) with `k` = `q` (`qubit_constraint`),
+  `a` (allow all), `f<i>.<j>` (forbid the ordered pair), `n` (forbid equal names); absent = the default `[qubit_constraint]`
+* `methodtests` → `ok ALAP,ALAP,ALAP` (the regenerated literals); `applycons v=1,0,1` → `ok 0|1` (regenerated `apply_constraint`)
 * errors: `err noqubits` (`max()` of an empty set: no instruction uses a qubit), `err empty` never
   (the code returns `[]` for an empty list: answer `ok used=0 cycles= idx= starts= edges=`).
 -/
@@ -35,6 +40,29 @@ def parseIns (s : String) : Option Ins :=
   | _ => none
 
 def parseGates (s : String) : Option (List Ins) := (splitNE s "|").mapM parseIns
+
+def parseCFun (s : String) : Option CFun :=
+  if s == "q" then some .qubit else if s == "a" then some .allowAll else if s == "n" then some .sameName else
+  if s.startsWith "f" then
+    match ((s.drop 1).toString.splitOn ".").mapM String.toNat? with
+    | some [a, b] => some (.forbid a b)
+    | _ => none
+  else none
+
+def parseCons (fs : List String) : Option (List CFun) :=
+  match field? fs "cons" with
+  | none => some [.qubit]
+  | some "-" => some []
+  | some s => (splitNE s ",").mapM parseCFun
+
+/-- the constructor argument `method`: `some (some s)` a string, `some none` not a string, `none` malformed -/
+def parseMethod (fs : List String) : Option (Option String) :=
+  match field? fs "mcp", field? fs "method" with
+  | some "-", _ => some none
+  | some "e", _ => some (some "")
+  | some s, _ => (natList? s).map fun l => some (String.ofList (l.map Char.ofNat))
+  | none, some m => some (some m)
+  | none, none => none
 
 def showCycles (c : List (List Nat)) : String := ";".intercalate (c.map showNats)
 
@@ -62,24 +90,29 @@ def step (line : String) : String :=
     match (field? fs "g").bind parseGates with
     | some [a, b] => b2s (share a b)
     | _ => "bad-op"
+  | some "methodtests" => "ok " ++ ",".intercalate Gen.SchedRule.methodTests
+  | some "applycons" =>
+    match fNats? fs "v" with
+    | some l => b2s (Gen.SchedRule.applyConstraint (l.map (· != 0)))
+    | none => "bad-op"
   | some "sched" =>
-    match fStr? fs "method", fNat? fs "perm", (field? fs "gates").map parseGates with
-    | some m, some p, gs =>
+    match parseMethod fs, fNat? fs "perm", (field? fs "gates").map parseGates, parseCons fs with
+    | some m, some p, gs, some cons =>
       let gs : Option (List Ins) := match gs with | none => some [] | some g => g
       let shuf : Option (List (List Nat)) := match field? fs "shuf" with
         | none => some []
         | some s => natListList? s
       match gs, shuf with
       | some ns, some sh =>
-        if m != "ASAP" && m != "ALAP" then "bad-op" else
         if ns.isEmpty then "ok used=0 cycles= idx= starts= edges=" else
         if ns.all (fun i => i.used.isEmpty) then "err noqubits" else
-        let cfg : Cfg := ⟨m == "ALAP", p != 0, sh, match fNat? fs "fix" with | some f => f != 0 | none => Gen.SchedRule.conflictFix⟩
-        let cyc := gateCycles cfg ns
+        let cfg : Cfg := ⟨alapOf m, p != 0, sh, match fNat? fs "fix" with | some f => f != 0 | none => Gen.SchedRule.conflictFix⟩
+        let rel := shOf cons ns
+        let cyc := gateCyclesW rel cfg ns
         let e := dedupSorted ns.length (depEdges cfg.allowPerm ns)
-        s!"ok used={shufflesUsed cfg ns} cycles={showCycles cyc} idx={showNats (cycleIndices ns.length cyc)} starts={showInts (pulseStarts cfg ns)} edges={",".intercalate (e.map fun p => s!"{p.1}>{p.2}")}"
+        s!"ok used={shufflesUsedW rel cfg ns} cycles={showCycles cyc} idx={showNats (cycleIndices ns.length cyc)} starts={showInts (pulseStartsW rel cfg ns)} edges={",".intercalate (e.map fun p => s!"{p.1}>{p.2}")}"
       | _, _ => "bad-op"
-    | _, _, _ => "bad-op"
+    | _, _, _, _ => "bad-op"
   | _ => "bad-op"
 
 def main : IO Unit := serve step
